@@ -110,10 +110,11 @@ func scCookie(r *Run) {
 	}
 	// statelessness: after every ClientHello delivery the tables and the goroutine count are unchanged
 	baseG := -1
-	preHS, preSS := 0, 0
+	preHS, preSS, preFP := 0, 0, 0
 	n.OnDeliver = func(d *Dgram, e *Endpoint) {
 		if d.Dst.String() == srvAddr.String() && len(d.Data) > 0 && d.Data[0] == 0x01 {
 			preHS, preSS = srv.VerifTables()
+			preFP = srv.VerifFootprint()
 		}
 	}
 	n.AfterStep = func(d *Dgram) {
@@ -125,6 +126,11 @@ func scCookie(r *Run) {
 		r.Obligation(1)
 		if hsN > preHS || ssN > preSS {
 			r.Violate("C19/state-kept-for-client-hello", "a ClientHello (#%d from %s) grew the server's tables: pending handshakes %d -> %d, sessions %d -> %d", d.ID, d.From, preHS, hsN, preSS, ssN)
+		}
+		// ... and so is everything else the server object holds, in whatever field (entries of maps, queued
+		// channel elements, slice elements reachable from it)
+		if fp := srv.VerifFootprint(); fp > preFP && !r.Failed() {
+			r.Violate("C19/state-kept-for-client-hello/footprint", "a ClientHello (#%d from %s) left something behind in the server: the containers reachable from the server object held %d elements before it and %d after", d.ID, d.From, preFP, fp)
 		}
 		if baseG < 0 {
 			baseG = g
@@ -351,6 +357,8 @@ func indexOfKey(l []*keys.KEMKeyPair, k *keys.KEMKeyPair) int {
 }
 
 func scHiddenSilence(r *Run) {
+	transport.VerifClientClock = nil
+	defer func() { transport.VerifClientClock = nil }()
 	n := NewNet(r)
 	defer n.Stop()
 	n.Cfg.Latency = time.Millisecond
@@ -504,6 +512,22 @@ func scHiddenSilence(r *Run) {
 			continue
 		}
 		addr := Addr(byte(20+r.Intn("act", 200)), 2000+i)
+		if transport.VerifClientClockPatched && r.Intn("clock", 8) == 0 {
+			// a holder of the right KEM key whose clock is wrong, or who lies about the time: the request is
+			// well-formed but not fresh
+			now := time.Now().Unix()
+			skew := []int64{now - 10 - int64(r.Intn("clock", 100000)), now + 10 + int64(r.Intn("clock", 100000)), 0, 1, 1 << 62, -1, -1 << 63, -1<<63 + now, -now}[r.Intn("clock", 9)]
+			pendingTag[addr.String()] = fmt.Sprintf("right KEM key, but the timestamp in the request is %d (the time is %d)", uint64(skew), now)
+			c := mkClient(addr, rightKEM, false)
+			clients = append(clients, c)
+			transport.VerifClientClock = func() int64 { return skew }
+			r.Go(func() { c.Handshake() })
+			time.Sleep(time.Millisecond) // (the request is written at once)
+			transport.VerifClientClock = nil
+			r.CountFault("hidden/request-with-wrong-clock", 1)
+			time.Sleep(time.Duration(r.Intn("act", 300)) * time.Millisecond)
+			continue
+		}
 		switch r.Intn("act", 9) {
 		case 0: // genuine fresh request (control)
 			pendingTag[addr.String()] = "genuine"
